@@ -149,18 +149,20 @@ def external_merge_render(cmd, b, l, r):
     r = as_text(r)
     td = tempfile.mkdtemp()
     try:
-        with io.open(os.path.join(td, 'local'), 'w', encoding="utf8") as f:
+        # surrogatepass: notebook text may contain unpaired surrogates
+        # (JSON escapes such as "\ud83d"), which strict utf8 refuses
+        with io.open(os.path.join(td, 'local'), 'w', encoding="utf8", errors="surrogatepass") as f:
             f.write(l)
-        with io.open(os.path.join(td, 'base'), 'w', encoding="utf8") as f:
+        with io.open(os.path.join(td, 'base'), 'w', encoding="utf8", errors="surrogatepass") as f:
             f.write(b)
-        with io.open(os.path.join(td, 'remote'), 'w', encoding="utf8") as f:
+        with io.open(os.path.join(td, 'remote'), 'w', encoding="utf8", errors="surrogatepass") as f:
             f.write(r)
         assert all(fn in cmd for fn in ['local', 'base', 'remote']), (
             'invalid cmd argument for external merge renderer')
         p = Popen(cmd, cwd=td, stdout=PIPE)
         output, errors = p.communicate()
         status = p.returncode
-        output = output.decode('utf8')
+        output = output.decode('utf8', 'surrogatepass')
         # normalize newlines
         output = output.replace('\r\n', '\n')
     finally:
@@ -175,9 +177,10 @@ def external_diff_render(cmd, a, b):
     try:
         # TODO: Pass in language information so that an appropriate file
         # extension can be used. This should provide a hint to the differ.
-        with io.open(os.path.join(td, 'before'), 'w', encoding="utf8") as f:
+        # surrogatepass: notebook text may contain unpaired surrogates
+        with io.open(os.path.join(td, 'before'), 'w', encoding="utf8", errors="surrogatepass") as f:
             f.write(a)
-        with io.open(os.path.join(td, 'after'), 'w', encoding="utf8") as f:
+        with io.open(os.path.join(td, 'after'), 'w', encoding="utf8", errors="surrogatepass") as f:
             f.write(b)
         assert all(fn in cmd for fn in ['before', 'after']), (
             'invalid cmd argument for external diff renderer: %r' %
@@ -185,7 +188,7 @@ def external_diff_render(cmd, a, b):
         p = Popen(cmd, cwd=td, stdout=PIPE)
         output, errors = p.communicate()
         status = p.returncode
-        output = output.decode('utf8')
+        output = output.decode('utf8', 'surrogatepass')
         r = re.compile(r"^\\ No newline at end of file\n?", flags=re.M)
         output, n = r.subn("", output)
         assert n <= 2, 'unexpected output from external diff renderer'
